@@ -90,7 +90,7 @@ func uniqueKeys(o *ref.V) []string {
 	return out
 }
 
-func checkRoundTrip(c TextCase) ev.Verdict {
+func checkRoundTrip(c TextCase) (v ev.Verdict) {
 	want, info, err := ref.ParseInfo(c.Text)
 	if err != nil {
 		return ev.Excluded("not well-formed (C16)")
@@ -101,7 +101,6 @@ func checkRoundTrip(c TextCase) ev.Verdict {
 	if info.BadUTF8 {
 		return ev.Excluded("invalid UTF-8 inside a string")
 	}
-	v := ev.Verdict{}
 	exotic := want.Any(func(x *ref.V) bool { return x.K == ref.KNum && len(x.Num) > 15 }) || info.Escapes > 0
 	v.NonTrivial = exotic
 	if info.LoneSurrogate {
@@ -117,6 +116,32 @@ func checkRoundTrip(c TextCase) ev.Verdict {
 		{"UnmarshalValid", func(into any) ([]string, error) { return nil, fj.UnmarshalValid(c.Text, into) }},
 		{"UnmarshalValidWithKeys", func(into any) ([]string, error) { return fj.UnmarshalValidWithKeys(c.Text, into) }},
 	}
+	// every slice the codec hands back is kept and must still hold the same bytes
+	// (and key lists the same names) after all the later codec calls of this case
+	type held struct {
+		what string
+		got  []byte
+		was  []byte
+	}
+	var kept []held
+	var keptKeys [][2][]string
+	defer func() {
+		if v.Err != nil {
+			return
+		}
+		for _, h := range kept {
+			if !bytes.Equal(h.got, h.was) {
+				v.Err = fmt.Errorf("the bytes returned by %s changed during later codec calls: now %q, were %q", h.what, h.got, h.was)
+				return
+			}
+		}
+		for _, k := range keptKeys {
+			if fmt.Sprintf("%q", k[0]) != fmt.Sprintf("%q", k[1]) {
+				v.Err = fmt.Errorf("a returned key list changed during later codec calls: now %q, was %q", k[0], k[1])
+				return
+			}
+		}
+	}()
 	for _, d := range decs {
 		// target kinds: any always; map / slice when the root fits
 		targets := []func() any{func() any { var a any; return &a }}
@@ -136,6 +161,9 @@ func checkRoundTrip(c TextCase) ev.Verdict {
 			if derr != nil {
 				v.Err = fmt.Errorf("%s rejected a well-formed text: %v", d.name, derr)
 				return v
+			}
+			if keys != nil {
+				keptKeys = append(keptKeys, [2][]string{keys, append([]string{}, keys...)})
 			}
 			var val any
 			switch p := into.(type) {
@@ -188,6 +216,7 @@ func checkRoundTrip(c TextCase) ev.Verdict {
 					v.Err = fmt.Errorf("%s failed on a decoded value: %v", enc.name, eerr)
 					return v
 				}
+				kept = append(kept, held{enc.name, out, append([]byte{}, out...)})
 				back, perr := ref.Parse(out)
 				if perr != nil {
 					v.Err = fmt.Errorf("%s wrote ill-formed JSON %q: %v", enc.name, out, perr)
@@ -266,7 +295,7 @@ func checkTransforms(c TextCase) ev.Verdict {
 
 var (
 	rtUnit = ev.Unit[TextCase]{Name: "round-trip", Draw: drawText, Check: checkRoundTrip,
-		Rule: "generated JSON texts in arbitrary spelling (numbers beyond float64, escapes of every form, control and non-BMP characters, lone surrogates) decoded with Unmarshal, UnmarshalWithKeys, UnmarshalValid, UnmarshalValidWithKeys into any / map[string]any / []any, re-encoded with Marshal, MarshalEscaped(true/false), MarshalIndent and read back by the independent reader; oracle: value Equal (number literals, code points, nesting, array order), key list = member names in document order for map targets, no raw <,>,& with escaping on; non-trivial = a number longer than 15 characters or an escape sequence in the text, or an object with >= 2 keys checked for order"}
+		Rule: "generated JSON texts in arbitrary spelling (numbers beyond float64, escapes of every form, control and non-BMP characters, lone surrogates) decoded with Unmarshal, UnmarshalWithKeys, UnmarshalValid, UnmarshalValidWithKeys into any / map[string]any / []any, re-encoded with Marshal, MarshalEscaped(true/false), MarshalIndent and read back by the independent reader; oracle: value Equal (number literals, code points, nesting, array order), key list = member names in document order for map targets, no raw <,>,& with escaping on; every returned byte slice and key list still holds its content after all later codec calls of the case; non-trivial = a number longer than 15 characters or an escape sequence in the text, or an object with >= 2 keys checked for order"}
 	trUnit = ev.Unit[TextCase]{Name: "transforms", Draw: drawText, Check: checkTransforms,
 		Rule: "the same texts through Compact, Indent and HTMLEscape; oracle: Compact = input with whitespace outside strings removed (independent tokenizer) = encoding/json.Compact; Indent minus whitespace = Compact and = encoding/json.Indent byte for byte; HTMLEscape = input with <,>,&,U+2028,U+2029 replaced, byte-exact = encoding/json.HTMLEscape; non-trivial = text holds insignificant whitespace or one of <,>,&"}
 )
